@@ -65,6 +65,11 @@ type appCase struct {
 	EmptyRun      int  `json:"empty_reads_in_a_row,omitempty"`
 	EmptyRunAt    int  `json:"empty_run_at_offset,omitempty"`
 	EndsWithError bool `json:"ends_with_a_read_error,omitempty"`
+	// the configuration names no log directory: the logs go to the current directory
+	DefaultLogDir bool `json:"no_log_directory_configured,omitempty"`
+	// writer mode "stalllast": the Write call that brings the total output to this many
+	// bytes - the last one - is held up for WriterUs
+	StallAtTotal int `json:"writer_stalls_when_total_reaches,omitempty"`
 	// the source falls silent for SilenceMs after this many chunks have been written
 	SilenceAfterChunks int `json:"silence_after_chunks,omitempty"`
 	SilenceMs          int `json:"silence_ms,omitempty"`
@@ -73,6 +78,8 @@ type appCase struct {
 	StdinNonblock bool `json:"stdin_nonblocking,omitempty"`
 	// process level: the first write to the pipe has this many bytes, and a pause follows
 	FirstChunk int `json:"first_chunk,omitempty"`
+	// process level: the sizes of the writes to the pipe, used in turn (overrides Chunk)
+	ChunkPattern []int `json:"chunk_pattern,omitempty"`
 }
 
 type appObs struct {
@@ -128,7 +135,7 @@ func runAppTest(c *child.Ctx, app string, cases []appCase) (map[int]appObs, stri
 		var lastSize, lastMark int64 = -1, -1
 		patience := 75 * time.Second
 		for _, k := range cases {
-			if d := time.Duration(k.WriterUs) * time.Microsecond; k.WriterMode == "stallonce" && 75*time.Second+d > patience {
+			if d := time.Duration(k.WriterUs) * time.Microsecond; (k.WriterMode == "stallonce" || k.WriterMode == "stalllast") && 75*time.Second+d > patience {
 				patience = 75*time.Second + d // a case that is held up on purpose
 			}
 			if d := time.Duration(k.PauseMs) * time.Millisecond; 75*time.Second+d > patience {
@@ -378,6 +385,9 @@ func runAppProcess(c *child.Ctx, bin string, args []string, stdin []byte, k appC
 					outMu.Unlock()
 				}
 				n := k.Chunk
+				if len(k.ChunkPattern) > 0 {
+					n = k.ChunkPattern[nchunks%len(k.ChunkPattern)]
+				}
 				if n <= 0 {
 					n = 1 + r.Intn(4096)
 				}
@@ -610,12 +620,21 @@ func appInputX(r *ref.SplitMix64, i int) (in []byte, frames []byte, known bool) 
 		// a long stretch of text or binary without a start-of-frame byte (its readable
 		// form is several times as long), and frames of the greatest lengths
 		var s gen.Stream
-		s = append(s, gen.RandFrame(r))
+		leading := r.Chance(1, 3) // nothing but other data for a long while, then the first frame
+		if !leading {
+			s = append(s, gen.RandFrame(r))
+		}
 		n := r.Range(13000, 24000)
+		if leading {
+			n = []int{65535, 65536, 65537, 70000, 100000}[r.Intn(5)]
+		}
 		if r.Chance(1, 2) {
 			// exactly a power of two, one less, one more: where a block of other data is
 			// full and the next frame's start byte is the first thing after it
 			n = []int{4095, 4096, 4097, 8191, 8192, 16383, 32767, 32768, 65535, 65536, 65537, 131071}[r.Intn(12)]
+		}
+		if leading && n < 65535 {
+			n += 65536
 		}
 		if r.Chance(1, 2) {
 			const sentence = "$GNGGA,092751.000,5321.6802,N,00630.3371,W,1,8,1.03,61.7,M,55.3,M,,*75\r\n"
@@ -788,7 +807,7 @@ func appInputX(r *ref.SplitMix64, i int) (in []byte, frames []byte, known bool) 
 
 // appInput generates an input for the applications.
 func appInput(r *ref.SplitMix64, i int) []byte {
-	if i%23 == 11 || i%23 == 17 {
+	if i%23 == 11 || i%23 == 17 || i%23 == 14 || i%23 == 5 {
 		in, _, _ := appInputX(r, i)
 		return in
 	}
@@ -1007,6 +1026,26 @@ func monC11(c *child.Ctx, replay json.RawMessage) {
 				k.Display, k.Record = i%4 >= 2, i%2 == 1
 				if k.Display && len(in) > 3000 && i%23 != 11 {
 					k.Input = hexs(in[:3000])
+				}
+			}
+			if i == 9 {
+				// the LAST write of the whole output is the one that is held up, for longer
+				// than any plausible grace period: the call returns when it has completed
+				small := in
+				if len(small) > 2500 {
+					small = small[:2500]
+				}
+				var want []byte
+				if app == "rtcmfilter" {
+					want, _, _ = filterExpected(small)
+				} else {
+					want = displayExpected(time.UnixMilli(k.StartMs).UTC(), small)
+				}
+				if len(want) > 0 {
+					k.Input = hexs(small)
+					k.WriterMode, k.WriterUs, k.StallAtTotal = "stalllast", []int{2600000, 4200000, 6500000}[c.Batch%3], len(want)
+					k.Chunk, k.ReaderUs, k.TolMs, k.Closer = 0, 0, 0, false
+					c.Count("cases_whose_last_write_is_held_up", 1)
 				}
 			}
 			if i == 3 && c.Batch == 0 || c.Thorough() && i%400 == 3 {
@@ -1243,6 +1282,10 @@ func monC10(c *child.Ctx, replay json.RawMessage) {
 			k.EmptyPermille = []int{30, 300}[r.Intn(2)]
 			c.Count("cases_with_empty_reads", 1)
 		}
+		if i%11 == 6 && (k.Display || k.Record) {
+			k.DefaultLogDir = true
+			c.Count("cases_without_a_log_directory_in_the_configuration", 1)
+		}
 		if i%9 == 4 {
 			// the device is unplugged: the input ends with a hard read error; everything
 			// that was read before it is still filtered and written
@@ -1297,6 +1340,14 @@ func monC10(c *child.Ctx, replay json.RawMessage) {
 			k.Chunk, k.ReaderUs, k.EOFWithData = 0, 0, false
 			k.WriterMode, k.WriterUs = "stallonce", int(onceStalls(c)[c.Batch].Microseconds())
 			c.Count("sessions_with_one_write_held_up", 1)
+		}
+		if i == 12 && known && len(frames) > 0 {
+			// the LAST write of all is the one that is held up, for longer than any plausible
+			// grace period at shutdown: the call returns only when it has completed
+			k.Input, k.Expect, k.HasExpect = hexs(in), hexs(frames), true
+			k.Chunk, k.ReaderUs, k.EmptyPermille = 0, 0, 0
+			k.WriterMode, k.WriterUs, k.StallAtTotal = "stalllast", []int{2600000, 4200000, 6500000}[c.Batch%3], len(frames)
+			c.Count("sessions_whose_last_write_is_held_up", 1)
 		}
 		if ob := c.Batch - 1; i == 13 && ob >= 0 && ob < len(onceStalls(c)) {
 			// the source falls silent once, for seconds, in the middle of a frame (a radio
